@@ -295,19 +295,19 @@ func (ls *LState) FindTable(obj *LTable, n string, size int) LValue {
 func (ls *LState) RegisterModule(name string, funcs map[string]LGFunction) LValue {
 	tb := ls.FindTable(ls.Get(RegistryIndex).(*LTable), "_LOADED", 1)
 	mod := ls.GetField(tb, name)
-	if mod.Type() != LTTable {
+	modtb, ok := mod.(*LTable)
+	if !ok {
 		newmod := ls.FindTable(ls.Get(GlobalsIndex).(*LTable), name, len(funcs))
-		if newmodtb, ok := newmod.(*LTable); !ok {
+		if modtb, ok = newmod.(*LTable); !ok {
 			ls.RaiseError("name conflict for module(%v)", name)
-		} else {
-			for fname, fn := range funcs {
-				newmodtb.RawSetString(fname, ls.NewFunction(fn))
-			}
-			ls.SetField(tb, name, newmodtb)
-			return newmodtb
 		}
+		ls.SetField(tb, name, modtb)
 	}
-	return mod
+	// the functions are added to the module's table whether it was created just now or existed already
+	for fname, fn := range funcs {
+		modtb.RawSetString(fname, ls.NewFunction(fn))
+	}
+	return modtb
 }
 
 func (ls *LState) SetFuncs(tb *LTable, funcs map[string]LGFunction, upvalues ...LValue) *LTable {
